@@ -60,7 +60,12 @@ func Bases(quick bool) []*prog.Case {
 	cases = append(cases, famFlow(true)...)
 	cases = append(cases, famEnum(true)...)
 	cases = append(cases, famByValue(true)...)
-	cases = append(cases, famLoops(true)...)
+	for _, k := range famLoops(true) {
+		// quick: the stepped ranges with literal bounds and the for-in loops
+		if !quick || (strings.Contains(k.ID, "/step/") && strings.Contains(k.ID, "bounds=untyped-lit")) || strings.Contains(k.ID, "/forin") {
+			cases = append(cases, k)
+		}
+	}
 	for _, k := range famRef(true) {
 		if !quick || strings.Contains(k.ID, "/i32/") {
 			cases = append(cases, k)
@@ -147,7 +152,29 @@ func Run(c *vl.Ctx) {
 		}
 		live = append(live, k)
 	}
-	obs := r.Observe(live, "native", func(i int) *prog.Obs { return prog.WantObs(live[i].Want) })
+	// cases that the compiler is allowed to reject go through the front-end pre-pass first, so
+	// that a rejected one does not take its pack apart; everything else is packed directly
+	obs := make([]prog.Obs, len(live))
+	var plain, mayRej []int
+	for i, k := range live {
+		if k.Tag == "may-reject" {
+			mayRej = append(mayRej, i)
+		} else {
+			plain = append(plain, i)
+		}
+	}
+	for _, part := range [][]int{plain, mayRej} {
+		sub := make([]*prog.Case, len(part))
+		for j, i := range part {
+			sub[j] = live[i]
+		}
+		r.Prefilter = len(part) > 0 && live[part[0]].Tag == "may-reject"
+		po := r.Observe(sub, "native", func(j int) *prog.Obs { return prog.WantObs(sub[j].Want) })
+		for j, i := range part {
+			obs[i] = po[j]
+		}
+	}
+	r.Prefilter = false
 	for i, k := range live {
 		o := obs[i]
 		fam := strings.SplitN(k.ID, "/", 3)[1]
